@@ -333,7 +333,7 @@ func NewShared(prog *ssa.Program, mainPkg *ssa.Package, sizes types.Sizes) *Shar
 
 // purePackages have their package initializers run once; their globals are shared
 // (treated as immutable) by all paths.
-var purePackages = []string{"math", "math/bits", "unicode/utf8", "strconv", "sort", "errors", "strings", "encoding/binary", "unicode", "io", "bytes", "path/filepath", "os", "context", "time", "fmt", "bufio", "syscall", "io/fs"}
+var purePackages = []string{"internal/oserror", "internal/poll", "math", "math/bits", "unicode/utf8", "strconv", "sort", "errors", "strings", "encoding/binary", "unicode", "io", "bytes", "path/filepath", "os", "context", "time", "fmt", "bufio", "syscall", "io/fs"}
 
 func (sh *Shared) newInterp(ex *Exec) *interpreter {
 	i := &interpreter{
